@@ -19,6 +19,8 @@ def step (s : St) (line : String) : St × String :=
   | ["cancel"] => let (s', _) := Vivid.SysFSM.step s .cancel; (s', s!"- status={showSt s'}")
   | ["conc", _, _] => (s, "-")       -- concurrent pair: checked by the harness monitor only
   | ["many", _, _] => (s, "-")       -- n concurrent calls of one kind: harness monitor only
+  | ["busystop"] => (s, "-")         -- calls during a Stop in progress, on a system of its own: harness monitor only
+  | ["selfstop"] => (s, "-")         -- Stop called from an actor's OnKill handler: harness monitor only
   | ["slowstop"] => (s, "-")         -- a Stop that times out, on a system of its own: harness monitor only
   | ["census"] => (s, "-")           -- goroutine census: harness monitor only
   | _ => (s, "bad-op")
